@@ -641,7 +641,8 @@ def _mods():
     add('cooler.fileops.is_cooler', 'cooler.fileops', __import__('cverif.props.common', fromlist=['x']).REF_IS_COOLER, 'recogniser is total (see C15)')
     add('cooler.fileops.list_coolers', 'cooler.fileops', __import__('cverif.props.common', fromlist=['x']).REF_LIST_COOLERS, 'listing (see C15)',
         nested=[('_check_cooler', '_check_cooler')])
-    add('cooler.fileops.list_scool_cells', 'cooler.fileops', C15.REF_LIST_CELLS, 'cell listing (see C15/C17)')
+    add('cooler.fileops.list_scool_cells', 'cooler.fileops', C15.REF_LIST_CELLS, 'cell listing (see C15/C17)',
+        nested=[('_check_cooler', '_check_cooler')])
     add('cooler.fileops.cp', 'cooler.fileops', C15.REF_CP, 'copy wrapper')
     add('cooler.fileops.mv', 'cooler.fileops', C15.REF_MV, 'move wrapper')
     add('cooler.fileops.ln', 'cooler.fileops', C15.REF_LN, 'link wrapper')
@@ -1357,4 +1358,53 @@ def ref(grouped, chromsizes, region):
         hi = lo + result["start"].values[lo:].searchsorted(end, side="left")
         result = result.iloc[lo:hi]
     return result
+''')
+
+
+# -- query engine: consumers of the task list (C03 / C12 / C14) ----------------------------------------------
+
+_reg('cooler.core._rangequery.BaseRangeQuery2D.__iter__', 'cooler.core._rangequery', 'every task is run once, in order', '''
+def ref(self):
+    for task in self.tasks:
+        yield task[0](*task[1:])
+''')
+_reg('cooler.core._rangequery.BaseRangeQuery2D.n_chunks', 'cooler.core._rangequery', 'one chunk per task', '''
+def ref(self):
+    return len(self.tasks)
+''')
+_reg('cooler.core._rangequery.BaseRangeQuery2D.get_chunk', 'cooler.core._rangequery',
+     'chunk i is task i; an index outside [0, number of tasks) is refused', '''
+def ref(self, i):
+    if not (0 <= i < len(self.tasks)):
+        raise IndexError
+    task = self.tasks[i]
+    return task[0](*task[1:])
+''')
+_reg('cooler.core._rangequery.BaseRangeQuery2D.to_delayed', 'cooler.core._rangequery', 'one delayed call per task, in order', '''
+def ref(self):
+    try:
+        from dask import delayed
+    except ImportError:
+        raise ImportError("dask required") from None
+    out = []
+    for task in self.tasks:
+        fetcher_delayed = delayed(task[0])
+        out.append(fetcher_delayed(*task[1:]))
+    return out
+''')
+_reg('cooler.core._rangequery.BaseRangeQuery2D.to_sparse_matrix', 'cooler.core._rangequery', 'the window and the field reach the assembler', '''
+def ref(self):
+    return spmatrix_slice_from_dict(self.get(), *self.bbox, self.field)
+''')
+_reg('cooler.core._rangequery.BaseRangeQuery2D.to_sparse_array', 'cooler.core._rangequery', 'the window and the field reach the assembler', '''
+def ref(self):
+    return sparray_slice_from_dict(self.get(), *self.bbox, self.field)
+''')
+_reg('cooler.core._rangequery.BaseRangeQuery2D.to_array', 'cooler.core._rangequery', 'the window and the field reach the assembler', '''
+def ref(self):
+    return array_slice_from_dict(self.get(), *self.bbox, self.field)
+''')
+_reg('cooler.core._rangequery.BaseRangeQuery2D.to_frame', 'cooler.core._rangequery', 'the field reaches the assembler', '''
+def ref(self):
+    return frame_slice_from_dict(self.get(), self.field)
 ''')
